@@ -17,9 +17,22 @@ class C02(EgSpec):
     streams = [
         {'name': 'default', 'component': 'eg', 'config': 'default', 'quick': 240, 'thorough': 3500},
         {'name': 'checks', 'component': 'eg', 'config': 'checks', 'quick': 80, 'thorough': 1200},
+        # the decidable premise `ss_ok` of the congruence theorems (C02_congruence_of_represented_nodes, ..._immediately_after_union)
+        # and the invariants they use, evaluated by the model on explored histories (machine egc)
+        dict(EGC_STREAM, quick=100, thorough=2000),
     ]
 
+    def model_input(self, stream, case, impl_obs):
+        if stream['name'] == 'invariant':
+            return core.sx_show(['egc'] + core.sx_parse(case)[1:])
+        return case
+
     def evaluate(self, stream, case, impl_obs, model_obs, ctx):
+        if stream['name'] == 'invariant':
+            bad = egc_verdict(model_obs, ['self-symmetries', 'covered', 'invb', 'handles-cover', 'stored-live'])
+            if bad:
+                return [('differs', 'congruence-premise', 'on this history the executable premise of the proved congruence theorems is false in the model: %s (%s)' % (bad, model_obs.strip()), {})]
+            return []
         if model_obs is None:
             return [('note', 'checker-time-limit', 'the verified checker exceeded its per-case time limit on this history; not judged', {})]
         pc, pi, pm = core.sx_parse(case), core.sx_parse(impl_obs), core.sx_parse(model_obs)
